@@ -366,7 +366,7 @@ pub fn cuckoo_history(ctx: &mut Ctx, nops: u64) {
     // clone_from into a filter of another geometry (same slot count split differently, other
     // fingerprint width, other size), other hasher, holding other content
     if ctx.rng.chance(1, 2) {
-        let bh2 = ctx.rand_hasher();
+        let bh2 = if ctx.rng.chance(1, 2) { ctx.rand_hasher() } else { bh };
         ctx.hasher(bh2);
         let c2 = match ctx.rng.below(5) {
             0 if c.nb >= 4 => CuckooCfg { bs: c.bs * 2, nb: c.nb / 2, lf: c.lf },
@@ -628,7 +628,9 @@ pub fn res_history(ctx: &mut Ctx) {
     if ctx.rng.chance(1, 2) {
         let k2 = *ctx.rng.pick(&[k + 3, (k / 2).max(1), 1, k, 2 * k + 1]);
         ctx.op(format!("res.new 7 {} {}", k2, ctx.rng.clone().next()));
-        for t in 0..ctx.rng.clone().below(3 * k2 + 2) {
+        // the receiver may be anywhere in its own stream: filling, exact phase, deep inside a skip gap
+        let pre = if ctx.rng.chance(1, 3) { ctx.rng.range(4 * k2, 12 * k2 + 3).min(400) } else { ctx.rng.below(3 * k2 + 2) };
+        for t in 0..pre {
             ctx.op(format!("res.add 7 {}", 700_000 + t));
         }
         let a = ctx.op("res.clonefrom 7 1".into());
@@ -775,6 +777,8 @@ pub fn heap_history(ctx: &mut Ctx, n: u64) {
     ctx.op("heap.iter 1".into());
     let alpha = *ctx.rng.pick(&[2u64, 4, 8, 30]);
     let nclass = ctx.rng.range(1, alpha);
+    // the result is read after every add, or only now and then
+    let iter_den = *ctx.rng.pick(&[1u64, 1, 1, 4, 25]);
     for t in 0..n {
         let id = if ctx.rng.chance(1, 2) { ctx.rng.below(alpha.min(3)) } else { ctx.rng.below(alpha) };
         let class = id % nclass;
@@ -796,7 +800,9 @@ pub fn heap_history(ctx: &mut Ctx, n: u64) {
         } else {
             ctx.op(format!("heap.add 1 {} {} {}", id, class, cols.join(" ")));
         }
-        ctx.op("heap.iter 1".into());
+        if ctx.rng.chance(1, iter_den) {
+            ctx.op("heap.iter 1".into());
+        }
         if t % 17 == 5 {
             ctx.op("heap.empty 1".into());
         }
@@ -813,6 +819,7 @@ pub fn heap_history(ctx: &mut Ctx, n: u64) {
             ctx.op("heap.empty 1".into());
         }
     }
+    ctx.op("heap.iter 1".into());
     // blind stretches: a read, clear(), then exactly as many adds as before with no read in between,
     // then a read (anything memoised by the first read must be gone)
     if ctx.rng.chance(1, 2) {
@@ -863,6 +870,51 @@ pub fn heap_history(ctx: &mut Ctx, n: u64) {
 }
 
 // ---------------------------------------------------------------------------------------------
+/// Large, sparsely used tables (more than 2^16 and 2^17 positions): positions, slot numbers and column
+/// indices must not be narrowed to 16 bits or to fewer words than the table has. `which` selects the
+/// structure; instances 31-33.
+pub fn big_table_case(ctx: &mut Ctx, which: &str) {
+    let bh = ScriptBH { mul: ctx.rng.next() | 1, add: ctx.rng.next(), sh: 29, seed: ctx.rng.next() };
+    ctx.hasher(bh);
+    let keys: Vec<u64> = (0..40).map(|_| ctx.rng.next()).collect();
+    let (newop, add, query, merge, len): (String, &str, &str, &str, Option<&str>) = match which {
+        "bloom" => (format!("{} {}", *ctx.rng.pick(&[65_537u64, 70_001, 131_075, 1 << 17]), ctx.rng.range(1, 4)), "bloom.insert", "bloom.query", "bloom.union", Some("bloom.len")),
+        "cms" => (format!("u32 {} {}", *ctx.rng.pick(&[65_537u64, 70_001, 131_075]), ctx.rng.range(1, 3)), "cms.add", "cms.query", "cms.merge", None),
+        "qf" => (format!("{} {}", *ctx.rng.pick(&[16u64, 17]), ctx.rng.range(2, 9)), "qf.insert", "qf.query", "qf.union", Some("qf.len")),
+        _ => (String::new(), "cuckoo.insert", "cuckoo.query", "cuckoo.union", Some("cuckoo.len")),
+    };
+    for id in 31..=33 {
+        if which == "cuckoo" {
+            let c = CuckooCfg { bs: 4, nb: 1 << 15, lf: *ctx.rng.clone().pick(&[8u64, 9, 16]) };
+            ctx.op(format!("cuckoo.new {} {} {} {} {}", id, 7 + id, c.bs, c.nb, c.lf));
+        } else {
+            ctx.op(format!("{}.new {} {}", which, id, newop));
+        }
+    }
+    for (i, k) in keys.iter().enumerate() {
+        let id = if i % 3 == 0 { 32 } else { 31 };
+        ctx.op(format!("{} {} {}", add, id, k));
+        ctx.op(format!("{} 33 {}", add, k));
+    }
+    ctx.op(format!("{} 31 32", merge));
+    for k in keys.iter() {
+        ctx.op(format!("both {} 31 33 {}", query, k));
+    }
+    for _ in 0..40 {
+        ctx.op(format!("both {} 31 33 {}", query, ctx.rng.clone().next()));
+        ctx.rng.next();
+    }
+    if let Some(l) = len {
+        ctx.op(format!("both {} 31 33", l));
+    }
+    ctx.op(format!("{}.clear 31", which));
+    ctx.op(format!("{} 31 {}", query, keys[0]));
+    ctx.op(format!("{} 31 {}", add, keys[1]));
+    ctx.op(format!("{} 31 {}", query, keys[1]));
+    ctx.stat(&format!("bigtable.{}", which), 1);
+}
+
+// ---------------------------------------------------------------------------------------------
 pub fn td_history(ctx: &mut Ctx, n: u64) {
     td_history_shaped(ctx, n, None)
 }
@@ -895,6 +947,8 @@ pub fn td_history_shaped(ctx: &mut Ctx, n: u64, force_atom: Option<bool>) {
     ctx.stat(&format!("td.shape.{}", shape), 1);
     // whole history scaled to a tiny / huge weight unit (positive weights far below f64::EPSILON)
     let wunit = if weighted && force_atom.is_none() && ctx.rng.chance(1, 3) { *ctx.rng.pick(&[1e-30f64, 1e-18, 1e6]) } else { 1.0 };
+    // how often the history is read: from every third insert to (almost) never before the end
+    let read_den = *ctx.rng.pick(&[3u64, 12, 12, 60, 1_000_000]);
     let frac_only = weighted && force_atom.is_none() && ctx.rng.chance(1, 4);
     if frac_only {
         ctx.stat("td.weights.frac_only", 1);
@@ -959,7 +1013,7 @@ pub fn td_history_shaped(ctx: &mut Ctx, n: u64, force_atom: Option<bool>) {
                 ctx.op(format!("td.cdf 1 {}", fx(f64::INFINITY)));
             }
         }
-        if ctx.rng.chance(1, 12) || t + 1 == n {
+        if ctx.rng.chance(1, read_den) || t + 1 == n {
             // a read somewhere in the history
             match ctx.rng.below(8) {
                 0 => ctx.op("td.count 1".into()),
